@@ -780,4 +780,27 @@ fn g3_ctx_amd64_read() {
 fn k_cfg_in_deps() { assert!(minidump_common::verif_probe_kani_cfg() == 7); }
 #[cfg(kani)]
 #[kani::proof]
-fn k_cfg_flag_in_deps() { assert!(minidump_common::verif_probe_flag_cfg() == 8); }
+#[kani::unwind(17)]
+fn n_crash_reason_windows() {
+    let bytes: [u8; 168] = kani::any();
+    let r = minidump::MinidumpException::read(&bytes, &bytes, Endian::Little, None);
+    if let Ok(e) = r {
+        let reason = e.get_crash_reason(minidump::system_info::Os::Windows, minidump::system_info::Cpu::X86_64);
+        let code = e.raw.exception_record.exception_code;
+        if code == 0xC0000005 && e.raw.exception_record.number_parameters >= 1 && e.raw.exception_record.exception_information[0] == 1 {
+            assert!(matches!(reason, minidump::CrashReason::WindowsAccessViolation(_)));
+        }
+        std::mem::forget(reason);
+    }
+}
+#[cfg(kani)]
+#[kani::proof]
+#[kani::unwind(17)]
+fn n_crash_reason_linux() {
+    let bytes: [u8; 168] = kani::any();
+    let r = minidump::MinidumpException::read(&bytes, &bytes, any_endian(), None);
+    if let Ok(e) = r {
+        let reason = e.get_crash_reason(minidump::system_info::Os::Linux, minidump::system_info::Cpu::X86_64);
+        std::mem::forget(reason);
+    }
+}
